@@ -410,7 +410,7 @@ def rule_append_cut(ctx) -> None:
             chk.decide(sets_app, "C01.cut-what-you-append", f"{MIX}::{cn}.disassemble_image", "disassembly recovers self.app", "self.app is never assigned", "", A.loc(MIX, di.node))
 
 
-def rule_presence(ctx) -> None:
+def rule_presence(ctx, P: str = "C01") -> None:
     """Optional parts tested by truthiness on the export path must be represented as None when absent by every producer."""
     chk = ctx.chk
     ks = ctx.cls(MIX, "Mbi_MixinKeyStore")
@@ -419,18 +419,18 @@ def rule_presence(ctx) -> None:
         stores = [n for n in A.walk_no_nested(fn.node) if isinstance(n, ast.Assign) and norm(n.targets[0]) == "self.key_store"]
         uncond_obj = [s for s in stores if not (isinstance(s.value, ast.Constant) and s.value.value is None) and not any(isinstance(a, ast.If) for a in A.ancestors(s) if a is not fn.node)]
         has_none = any(isinstance(s.value, ast.Constant) and s.value.value is None for s in stores)
-        chk.decide(not uncond_obj and has_none, "C01.presence", fn.qual, "key_store is None unless a key store is really present (export code tests `not self.key_store`)",
+        chk.decide(not uncond_obj and has_none, f"{P}.presence", fn.qual, "key_store is None unless a key store is really present (export code tests `not self.key_store`)",
                    f"unconditional `{norm(uncond_obj[0])[:80]}`" if uncond_obj else "no `self.key_store = None` default", "self.key_store = None; if present: self.key_store = KeyStore(...)", A.loc(MIX, fn.node))
     nm = ctx.prog.fold(ks.consts.get("NEEDED_MEMBERS"), ks.module, ks)
-    chk.decide(isinstance(nm, dict) and nm.get("key_store", 1) is None, "C01.presence", f"{MIX}::Mbi_MixinKeyStore.NEEDED_MEMBERS", "class default for key_store is None", f"{nm}", "", A.loc(MIX, ks.node))
+    chk.decide(isinstance(nm, dict) and nm.get("key_store", 1) is None, f"{P}.presence", f"{MIX}::Mbi_MixinKeyStore.NEEDED_MEMBERS", "class default for key_store is None", f"{nm}", "", A.loc(MIX, ks.node))
     # the consumers really test absence by truthiness
     enc = ctx.own(MIX, "Mbi_ExportMixinAppTrustZoneCertBlockEncrypt", "encrypt")
     t = [norm(s.test) for s in A.body_of(enc.node) if isinstance(s, ast.If)]
-    chk.decide("not self.key_store or self.key_store.key_source == KeySourceType.OTP" in t, "C01.presence", enc.qual, "image key is derived when no key store (or an OTP source) is present", f"{t}", "", A.loc(MIX, enc.node))
+    chk.decide("not self.key_store or self.key_store.key_source == KeySourceType.OTP" in t, f"{P}.presence", enc.qual, "image key is derived when no key store (or an OTP source) is present", f"{t}", "", A.loc(MIX, enc.node))
     # key derivation is the same expression for both directions (computed before the revert split)
     kd = [s for s in A.body_of(enc.node) if isinstance(s, ast.If) and "self.key_store" in norm(s.test)]
     rv = [s for s in A.body_of(enc.node) if isinstance(s, ast.If) and norm(s.test) == "revert" and any(isinstance(x, ast.Return) for x in s.body) and "aes_ctr_decrypt" in norm(s)]
-    chk.decide(bool(kd) and bool(rv) and kd[0].lineno < rv[0].lineno, "C01.presence", enc.qual + " twin", "the same derived key serves encryption and its revert", "", "", A.loc(MIX, enc.node))
+    chk.decide(bool(kd) and bool(rv) and kd[0].lineno < rv[0].lineno, f"{P}.presence", enc.qual + " twin", "the same derived key serves encryption and its revert", "", "", A.loc(MIX, enc.node))
 
 
 def rule_config_keys(ctx) -> None:
